@@ -12,7 +12,8 @@ REPO = os.environ.get("VERIF_REPO", "/repo")
 COQ = os.path.join(VERIF, "coq")
 EXTRACT = os.path.join(VERIF, "extract")
 MODEL_BIN = os.path.join(EXTRACT, "model")
-GENMODEL_BIN = os.path.join(EXTRACT, "gen", "genmodel")
+def genmodel_bin(unit):
+    return os.path.join(EXTRACT, "gen", unit or "none", "genmodel")
 PY = "/venv/bin/python"
 
 
@@ -98,14 +99,14 @@ def case_hash(doc):
 class Ctx:
     """What a correspondence driver gets, and where it records what it did."""
 
-    def __init__(self, pid, tier, seed, work):
+    def __init__(self, pid, tier, seed, work, genextract=None):
         self.pid = pid
         self.tier = tier
         self.seed = seed
         self.rnd = random.Random(seed)
         self.work = work
         self.model = Model()
-        self.genmodel = Model(GENMODEL_BIN)  # the translator's output, extracted
+        self.genmodel = Model(genmodel_bin(genextract))  # the translator's output for this property's unit, extracted
         self.evaluations = 0
         self.hashes = set()
         self.nontrivial = set()
